@@ -43,6 +43,20 @@ def gevalSwitch (r : GRec) (env : GEnv) (t : GExpr) (cases : List GCase) : Res G
       | none => stuck                      -- default: panic("Union pattern fail. Never reached here.")
     | _ => stuck)
 
+def pickSCase : List GSCase → String → Option GBody
+  | [], _ => none
+  | .mk (some p) b :: rest, s => if p == s then some b else pickSCase rest s
+  | .mk none b :: _, _ => some b
+
+def gevalSwitchS (r : GRec) (env : GEnv) (t : GExpr) (cases : List GSCase) : Res GVal :=
+  Res.bind (r.expr env t) (fun vt =>
+    match vt with
+    | .fo (.lit (.str s)) =>
+      match pickSCase cases s with
+      | some b => r.body env b
+      | none => stuck
+    | _ => stuck)
+
 def gstepExpr (r : GRec) (P : GProg) (env : GEnv) : GExpr → Res GVal
   | .lit l => Res.pure (.fo (.lit l))
   | .var x => ofOpt (lookup env x)
@@ -112,7 +126,8 @@ def gstepBody (r : GRec) (env : GEnv) : GBody → Res GVal
     Res.bind (grunStmts r env ss) (fun env' =>
       match tail with
       | .ret e => r.expr env' e
-      | .switch t cases => gevalSwitch r env' t cases)
+      | .switch t cases => gevalSwitch r env' t cases
+      | .switchS t cases => gevalSwitchS r env' t cases)
 
 def gstepApp (r : GRec) : GVal → List GVal → Res GVal
   | .clo ps b cenv, args => if ps.length = args.length then r.body ((ps.zip args).reverse ++ cenv) b else stuck
